@@ -5,7 +5,7 @@ on the partially written target.  TLC validates the whole history against the De
 restart the scan trusts no partially written chunk (DScan), no chunk whose bytes were completely and
 correctly on disk is requested again (DRound), and the update converges to B (DFinish)."""
 import os, json, random, shutil
-from .. import common, ref, corpus, delta
+from .. import common, ref, corpus, delta, server, zckdltier
 from ..common import Check, Broken
 from .c02 import validate_segments
 from .c04 import make_pair
@@ -26,6 +26,16 @@ def bases(rnd, tier):
     A, B = mk(5, [33000, 40010, 500], 0); out.append(("multi-block chunks, limit 1, 16 KiB fragments", A, B, b"", 1, 16384, ""))
     out.append(("multi-block chunks, unlimited, 1000-byte fragments", A, B, corpus.rand(rnd, 1000), -1, 1000, ""))
     return out
+
+
+def zckdl_scenarios(rnd):
+    """(A, B, initial target or None, label)"""
+    cA = [b""] + [corpus.text(rnd, n) for n in (300, 20000, 200, 500)] + [corpus.rand(rnd, 40000)]
+    cB = [b""] + [cA[1], corpus.rand(rnd, 9000), cA[3], corpus.text(rnd, 150), cA[2]]
+    kw = dict(comp_type=2, hash_type=1, chunk_hash_type=3, level=1)
+    A = ref.build_file(cA, **kw)[0]; B = ref.build_file(cB, **kw)[0]
+    assert len(A) > len(B)
+    return [(A, B, None, "no target"), (A, B, A, "longer old file as target")]
 
 
 def run(tier):
@@ -89,9 +99,56 @@ def run(tier):
             x = dict(x); x["scenario"] = name
             trace.append(x); owner.append(cid)
         ck.case(name)
+    # ---- the shipped downloader killed at its k-th write to the target, then simply run again
+    bd = os.path.join(common.BUILD, "plain")
+    zscripts = {}
+    zk = 0
+    for si, (A, B, T0, label) in enumerate(zckdl_scenarios(rnd)):
+        hB = ref.parse_header(B)
+        root = os.path.join(wd, "zsrv%d" % si); os.makedirs(root); open(os.path.join(root, "B.zck"), "wb").write(B)
+        srv = server.start(root, max_ranges=2, piece=1000)
+        url = "http://127.0.0.1:%d/B.zck" % srv.server_address[1]
+        def fresh(tag):
+            cwd = os.path.join(wd, "zcl%d-%s" % (si, tag)); os.makedirs(cwd)
+            open(os.path.join(cwd, "A.zck"), "wb").write(A)
+            if T0 is not None: open(os.path.join(cwd, "B.zck"), "wb").write(T0)
+            return cwd
+        # count the writes of an uninterrupted run
+        cwd = fresh("count"); trf = os.path.join(cwd, "calls.ndjson")
+        e = dict(os.environ); e.update({"ZV_ROLES": "tgt=B.zck", "ZV_TRACE": trf})
+        import subprocess
+        subprocess.run([os.path.join(bd, "zckdl"), "-s", "A.zck", url], cwd=cwd, env=e, stdout=subprocess.DEVNULL, stderr=subprocess.DEVNULL, timeout=60)
+        W = len([1 for l in (open(trf) if os.path.exists(trf) else []) if '"k":"w"' in l and '"role":"tgt"' in l])
+        # ftruncate is not a write: also kill "after the last write" by asking for write W+1 (never reached) -> plain run
+        ks = list(range(1, W + 1))
+        if tier == "quick" and len(ks) > 10:
+            ks = sorted(set(rnd.sample(ks, 8) + [W, W - 1]))
+        for k in ks:
+            for j in ((-1, 0) if (tier == "thorough" or k >= W - 1) else (-1,)):
+                cwd = fresh("k%d_%d" % (k, j + 1))
+                del srv.log[:]
+                st1 = zckdltier.run_zckdl(bd, cwd, url, src="A.zck", kill=(k, j))
+                mid = open(os.path.join(cwd, "B.zck"), "rb").read() if os.path.exists(os.path.join(cwd, "B.zck")) else b""
+                r1 = server.requested_ranges(srv.log, "B.zck"); del srv.log[:]
+                st2 = zckdltier.run_zckdl(bd, cwd, url, src="A.zck")
+                fin = open(os.path.join(cwd, "B.zck"), "rb").read() if os.path.exists(os.path.join(cwd, "B.zck")) else b""
+                r2 = server.requested_ranges(srv.log, "B.zck")
+                cid = "zk%d" % zk; zk += 1
+                name = "zckdl %s: killed at target write %d/%d after %s bytes, then run again" % (label, k, W, "all" if j == -1 else "0")
+                ev1 = zckdltier.tool_event(B, hB, A, T0 or b"", mid, r1, 99 if st1 == 99 else (st1 if isinstance(st1, int) else 98))
+                ev2 = zckdltier.tool_event(B, hB, A, mid, fin, r2, st2)
+                for ev in (ev1, ev2):
+                    ev["name"] = name
+                trace.append({"op": "begin", "name": name, "scenario": name}); owner.append(cid)
+                trace.append(dict(ev1, scenario=name)); owner.append(cid)
+                trace.append(dict(ev2, scenario=name, restarted=True)); owner.append(cid)
+                zscripts[cid] = ("# ZV_ROLES=tgt=B.zck ZV_KILL=tgt:%d:%d zckdl -s A.zck <url> ; then zckdl -s A.zck <url>\n" % (k, j), name, [os.path.join(root, "B.zck"), (os.path.join(cwd, "A.zck"), A), (os.path.join(cwd, "B.zck.initial"), T0 or b"")])
+                ck.case(name)
+        srv.shutdown(); srv.server_close()
+    ck.extra["zckdl_kill_points"] = zk
     ck.extra["kill_points"] = len(meta); ck.extra["actually_killed"] = nkilled
     ck.sample({"scenario": meta[len(meta) // 2][3], "trace": [ {k: v for k, v in t.items() if k in ("op", "vec", "X", "disk")} for t, o in zip(trace, owner) if o == meta[len(meta) // 2][0]][:12]})
-    sb = {m[0]: (scripts[i], m[3], delta.replay_files(m[1])) for i, m in enumerate(meta)}
+    sb = {m[0]: (scripts[i], m[3], delta.replay_files(m[1])) for i, m in enumerate(meta)}; sb.update(zscripts)
     validate_segments(ck, "C11", trace, owner, wd, scripts_by=sb, module="Trace_Delta", cfg="Trace_Delta.cfg", start_ops=("begin",))
     if nkilled < len(meta) // 2:
         raise Broken("only %d of %d kill points fired" % (nkilled, len(meta)))
